@@ -28,11 +28,13 @@ type sim = {
   ffdone : (int, unit) Hashtbl.t;
   cliclosed : (int, unit) Hashtbl.t;
   handles : (int, unit) Hashtbl.t;
+  parked : (int, unit) Hashtbl.t;      (* handleConn held between lookup and AddConn *)
   mutable close_called : bool;
 }
 
 let fuel s = nat_of_int (4 + int_of_nat s.st.Model.npc)
-let settle ?(watchers = true) s = s.st <- Model.settle s.cfg watchers (fuel s) s.st
+let hold s = Hashtbl.fold (fun k () acc -> nat_of_int k :: acc) s.parked []
+let settle ?(watchers = true) s = s.st <- Model.settle s.cfg watchers (hold s) (fuel s) s.st
 let step s o = let (st', out) = Model.step s.cfg s.st o in s.st <- st'; out
 
 let view s cid =
@@ -67,9 +69,29 @@ let exec s (race : bool) (op : string list) (obs : string list) : string list =
       ignore (step s (Model.OFirst (nat_of_int c, m)));
       settle s; [view s c]
     end
+  | ["ffpark"; cid; len; binding; hasuser; user; bytes] ->
+    let c = int_of_string cid in
+    if not (Hashtbl.mem s.known c) || Hashtbl.mem s.ffdone c then ["skip"] else begin
+      Hashtbl.replace s.ffdone c ();
+      let m = { Model.fm_len = z_of_string len; fm_binding = bool_of_tok binding;
+                fm_user = (if bool_of_tok hasuser then Some (cs user) else None); fm_bytes = cs bytes } in
+      ignore (step s (Model.OFirst (nat_of_int c, m)));
+      (* the implementation says whether handleConn reached AddConn's log line (it does not when the
+         first frame was refused); the model says whether there is an AddConn to hold *)
+      let routed = Model.phase_routed s.st (nat_of_int c) in
+      let said_parked = (match obs with "parked" :: _ -> true | _ -> false) in
+      if routed && said_parked then Hashtbl.replace s.parked c ();
+      settle s;
+      [(if routed && said_parked then "parked" else "nopark"); view s c]
+    end
+  | ["release"; cid] ->
+    let c = int_of_string cid in
+    if not (Hashtbl.mem s.parked c) then ["skip"] else begin
+      Hashtbl.remove s.parked c; settle s; [view s c]
+    end
   | ["dl"; cid; _n] ->
     let c = int_of_string cid in
-    if not (Hashtbl.mem s.known c) then ["skip"] else begin
+    if not (Hashtbl.mem s.known c) || Hashtbl.mem s.parked c then ["skip"] else begin
       if s.ft then begin
         ignore (step s (Model.ODeadline (nat_of_int c)));
         Hashtbl.replace s.ffdone c ()
@@ -78,7 +100,8 @@ let exec s (race : bool) (op : string list) (obs : string list) : string list =
     end
   | ["send"; cid; _] | ["sendbig"; cid; _] ->
     let c = int_of_string cid in
-    if not (Hashtbl.mem s.known c) || not (Hashtbl.mem s.ffdone c) || Hashtbl.mem s.cliclosed c then ["skip"]
+    if not (Hashtbl.mem s.known c) || not (Hashtbl.mem s.ffdone c) || Hashtbl.mem s.cliclosed c
+       || Hashtbl.mem s.parked c then ["skip"]
     else begin
       let payload = match op with
         | ["send"; _; b] -> cs b
@@ -90,14 +113,14 @@ let exec s (race : bool) (op : string list) (obs : string list) : string list =
     end
   | ["cclose"; cid] ->
     let c = int_of_string cid in
-    if not (Hashtbl.mem s.known c) || Hashtbl.mem s.cliclosed c then ["skip"] else begin
+    if not (Hashtbl.mem s.known c) || Hashtbl.mem s.cliclosed c || Hashtbl.mem s.parked c then ["skip"] else begin
       Hashtbl.replace s.cliclosed c (); Hashtbl.replace s.ffdone c ();
       ignore (step s (Model.OClientClose (nat_of_int c)));
       settle s; ["ok"; view s c]
     end
   | ["crecv"; cid] ->
     let c = int_of_string cid in
-    if not (Hashtbl.mem s.known c) || Hashtbl.mem s.cliclosed c then ["skip"] else begin
+    if not (Hashtbl.mem s.known c) || Hashtbl.mem s.cliclosed c || Hashtbl.mem s.parked c then ["skip"] else begin
       match step s (Model.OClientRecv (nat_of_int c)) with
       | Model.XPkt (_, b) -> ["pkt"; hex (ocaml_string b)]
       | Model.XNone -> ["none"] | Model.XClosed -> ["closed"] | _ -> ["skip"]
@@ -178,7 +201,7 @@ let simulate cfgseg (ops : string list list) (obs : string list list) (races : b
   let cfg = { Model.cf_first_timeout = ft; cf_alive = true; cf_wbuf = wbuf; cf_addr_ok = laddr;
               cf_wdrop = wdrop; cf_byid = byid } in
   let s = { st = Model.init; cfg; ft; known = Hashtbl.create 16; ffdone = Hashtbl.create 16;
-            cliclosed = Hashtbl.create 16; handles = Hashtbl.create 16; close_called = false } in
+            cliclosed = Hashtbl.create 16; handles = Hashtbl.create 16; parked = Hashtbl.create 4; close_called = false } in
   let races = ref races in
   let rec go ops obs = match ops with
     | [] -> []
@@ -212,6 +235,12 @@ let vop_of (op : string list) (o : string list) : (Model.vop * Model.vobs) optio
     let m = { Model.fm_len = z_of_string len; fm_binding = bool_of_tok binding;
               fm_user = (if bool_of_tok hasuser then Some (cs user) else None); fm_bytes = cs bytes } in
     Some (Model.VFirst (nat cid, m), none2 (out_of_view v))
+  | ["ffpark"; cid; len; binding; hasuser; user; bytes], [pk; v] ->
+    let m = { Model.fm_len = z_of_string len; fm_binding = bool_of_tok binding;
+              fm_user = (if bool_of_tok hasuser then Some (cs user) else None); fm_bytes = cs bytes } in
+    if pk = "parked" then Some (Model.VFirstPark (nat cid, m), none2 (out_of_view v))
+    else Some (Model.VFirst (nat cid, m), none2 (out_of_view v))
+  | ["release"; cid], [v] -> Some (Model.VRelease (nat cid), none2 (out_of_view v))
   | ["dl"; cid; _], [v] -> Some (Model.VDeadline (nat cid), none2 (out_of_view v))
   | ["send"; cid; b], [r; v] ->
     Some (Model.VSend (nat cid, cs b), ob (if r = "ok" then Model.XOk else Model.XClosed) (out_of_view v))
@@ -246,6 +275,10 @@ let vop_of (op : string list) (o : string list) : (Model.vop * Model.vobs) optio
   | _ -> raise Exit
 
 let monitor cfgseg ops osegs =
+  match osegs with
+  | [("PANIC" :: _)] -> ["impl_panic"]
+  | [("HANG" :: _)] -> ["impl_hang"]
+  | _ ->
   let ft, wbuf, laddr = match cfgseg with
     | "cfg" :: ft :: wbuf :: laddr :: _ -> bool_of_tok ft, bool_of_tok wbuf, bool_of_tok laddr
     | _ -> failwith "bad cfg segment" in
